@@ -131,6 +131,13 @@ def _cmp(op, l, r, pol, atomize):
         if isinstance(x, tuple) and x[0] in ("call", "ext", "method", "unop", "bool", "cmp"):
             want = c[1] if op in ("is", "==") else (not c[1])
             return npred(x, want, atomize)
+    if op in ("in", "not in") and isinstance(r, tuple) and len(r) == 2 and r[0] in ("list", "tuple", "set") and 0 < len(r[1]) <= 4 and \
+            all(isinstance(x, tuple) and x and x[0] in ("extref", "const") for x in r[1]):
+        # x in [a, b]  is  x == a or x == b   (types, constants): one spelling for membership in a short literal and a chain of tests
+        parts = frozenset(_cmp("==" if op == "in" else "!=", l, x, True, atomize) for x in r[1])
+        if len(parts) == 1:
+            return next(iter(parts))
+        return ("or" if op == "in" else "and", parts)
     if op in ("is", "is not", "in", "not in"):
         return ("atom", ("cmp", op.replace("not ", "").replace(" not", ""), l, r), "not" not in op)
     # emptiness idioms
